@@ -51,7 +51,6 @@ func (l helperLister) List(prefix, key []byte, count, direction int32) ([][]byte
 	return l.ListHelper.List(prefix, key, count, direction), nil
 }
 
-
 // build creates the databases of the case and returns the view under test.
 func build(c Case) (dbm.Lister, func()) {
 	kind, arg, _ := strings.Cut(c.Fixture, ":")
